@@ -37,9 +37,12 @@ AuxDefs ==
    WithObj |-> <<[F0 EXCEPT !.k = "obj", !.name = "Sub", !.ty = "Sub"], [F0 EXCEPT !.k = "obj", !.name = "subs", !.ty = "Sub", !.rep = TRUE], Sc("z", "u8")>>,
    \* a NON-root packet with an inline object whose member is a packet declared later in the text
    Wrap  |-> <<[F0 EXCEPT !.k = "inl", !.name = "Part", !.fs = <<Sc("p", "u8"), [F0 EXCEPT !.k = "obj", !.name = "Late", !.ty = "Late"]>>], Sc("t", "u8")>>,
-   Late  |-> <<Sc("v", "u16")>>]
+   Late  |-> <<Sc("v", "u16")>>,
+   \* two packets that each declare an inline object called Level, with different fields
+   Quote |-> <<[F0 EXCEPT !.k = "inl", !.name = "Level", !.rep = TRUE, !.fs = <<Sc("bid", "u32"), Sc("qty", "u16")>>], Sc("qend", "u8")>>,
+   Trade |-> <<[F0 EXCEPT !.k = "inl", !.name = "Level", !.rep = TRUE, !.fs = <<Sc("px", "u64"), [F0 EXCEPT !.k = "dyn", !.name = "venue"]>>], Sc("tend", "u8")>>]
 \* declaration order: the packets that reference other packets come first, so those references point forward
-AuxNames == <<"Outer", "WithObj", "Zeta", "Wrap", "A", "B", "Empty", "Sub", "Lst", "Big", "CkPkt", "Late">>
+AuxNames == <<"Outer", "WithObj", "Zeta", "Wrap", "A", "B", "Empty", "Sub", "Lst", "Big", "CkPkt", "Late", "Quote", "Trade">>
 
 MetaDefs ==
   << [name |-> "Code",  k |-> "fix",   ty |-> "",    n |-> 6, pad |-> "z",    ref |-> "",     doc |-> "code"],
@@ -79,6 +82,8 @@ ObjCells(i) ==
 \cup { Cell("obj:withmatch" \o (IF r THEN ":rep" ELSE ""), <<[F0 EXCEPT !.k = "obj", !.name = Nm("z", i), !.ty = "Zeta", !.rep = r], Sc(Nm("post", i), "u8")>>, {"Zeta", "A", "B"}, FALSE) : r \in Reps }
 \cup { Cell("obj:depth2" \o (IF r THEN ":rep" ELSE ""), <<[F0 EXCEPT !.k = "obj", !.name = Nm("o", i), !.ty = "Outer", !.rep = r], Sc(Nm("post", i), "u8")>>, {"Outer", "Sub", "Lst"}, FALSE) : r \in Reps }
 \cup { Cell("obj:inlinaux" \o (IF r THEN ":rep" ELSE ""), <<[F0 EXCEPT !.k = "obj", !.name = Nm("w", i), !.ty = "Wrap", !.rep = r], Sc(Nm("post", i), "u8")>>, {"Wrap", "Late"}, FALSE) : r \in Reps }
+\cup { Cell("obj:inlsame", <<[F0 EXCEPT !.k = "obj", !.name = Nm("qu", i), !.ty = "Quote"], [F0 EXCEPT !.k = "obj", !.name = Nm("tr", i), !.ty = "Trade"],
+                             Sc(Nm("post", i), "u8")>>, {"Quote", "Trade"}, FALSE) }
 \cup { Cell("obj:strings:rep", <<[F0 EXCEPT !.k = "obj", !.name = Nm("bs", i), !.ty = "B", !.rep = TRUE]>>, {"B"}, FALSE) }
 \cup { Cell("obj:withlist", <<[F0 EXCEPT !.k = "obj", !.name = Nm("Ls", i), !.ty = "Lst"]>>, {"Lst"}, FALSE) }
 \cup { Cell("obj:listoflists", <<[F0 EXCEPT !.k = "obj", !.name = Nm("Ls", i), !.ty = "Lst", !.rep = TRUE]>>, {"Lst"}, FALSE) }
@@ -108,8 +113,11 @@ KeyLits(kty) ==  \* three key literals with their canonical bytes for key type k
     \* the second key lies between 2^31 and 2^32: not an int literal of a language with 32-bit ints, and sign-extended by a careless widening
     [] kty = "u64" -> << [l |-> "1", b |-> <<0, 0, 0, 0, 0, 0, 0, 1>>], [l |-> "3000000000", b |-> <<0, 0, 0, 0, 178, 208, 94, 0>>],
                          [l |-> "18446744073709551615", b |-> <<255, 255, 255, 255, 255, 255, 255, 255>>] >>
+    [] kty = "i64" -> << [l |-> "1", b |-> <<0, 0, 0, 0, 0, 0, 0, 1>>], [l |-> "2", b |-> <<0, 0, 0, 0, 0, 0, 0, 2>>],
+                         [l |-> "9223372036854775807", b |-> <<127, 255, 255, 255, 255, 255, 255, 255>>] >>
     [] kty = "i32" -> << [l |-> "1", b |-> <<0, 0, 0, 1>>], [l |-> "2", b |-> <<0, 0, 0, 2>>], [l |-> "2147483647", b |-> <<127, 255, 255, 255>>] >>
-    [] OTHER       -> << [l |-> "\"AB\"", b |-> <<65, 66>>], [l |-> "\"C\"", b |-> <<67>>], [l |-> "\"DE\"", b |-> <<68, 69>>] >>
+    \* the third string key holds a '%' (printf-style text generation must not read it as a verb)
+    [] OTHER       -> << [l |-> "\"AB\"", b |-> <<65, 66>>], [l |-> "\"C\"", b |-> <<67>>], [l |-> "\"D%E\"", b |-> <<68, 37, 69>>] >>
 Pair(ks, pkt) == [keys |-> [j \in 1..Len(ks) |-> ks[j].b], lits |-> [j \in 1..Len(ks) |-> ks[j].l], pkt |-> pkt]
 Tables(kty) == LET K == KeyLits(kty) IN
   [one      |-> << Pair(<<K[1]>>, "A") >>,
@@ -124,6 +132,7 @@ KeyField(i, kty) == IF kty = "string" THEN [F0 EXCEPT !.k = "dyn", !.name = Nm("
                     \* the default padding written out: it must win over a configured padding
                     ELSE IF kty = "char4rsp" THEN [F0 EXCEPT !.k = "fix", !.name = Nm("key", i), !.n = 4, !.pad = "rsp"]
                     ELSE IF kty = "u16z" THEN Sc(Nm("key", i), "u16")
+                    ELSE IF kty = "i64" THEN Sc(Nm("key", i), "i64")
                     ELSE Sc(Nm("key", i), kty)
 AuxOf(tbl) == {tbl[j].pkt : j \in 1..Len(tbl)} \cup (IF \E j \in 1..Len(tbl) : tbl[j].pkt = "WithObj" THEN {"Sub"} ELSE {})
                                              \cup (IF \E j \in 1..Len(tbl) : tbl[j].pkt = "Zeta" THEN {"A", "B"} ELSE {})
@@ -141,7 +150,7 @@ MatchCells(i) == { LET tbl == Tables(kty)[form] IN
                                                   [F0 EXCEPT !.k = "match", !.name = Nm("bb", i), !.key = Nm("kb", i), !.pairs = t2]>>, AuxOf(t1) \cup AuxOf(t2), FALSE) }
                  \cup { LET tbl == Tables(kty)[form] IN
                         Cell("match:" \o kty \o ":" \o form, <<KeyField(i, kty), MatchF(i, tbl)>>, AuxOf(tbl), FALSE) :
-                          kty \in {"u16z", "char4rsp"}, form \in {"two", "list"} }
+                          kty \in {"u16z", "char4rsp", "i64"}, form \in {"two", "list"} }
                  \* the key field is typed by a MetaData entry
                  \cup { LET tbl == Tables("u32")[form] IN
                         Cell("match:metakey:" \o form, <<[F0 EXCEPT !.k = "meta", !.name = Nm("key", i), !.ty = "Qty"], MatchF(i, tbl)>>, AuxOf(tbl), TRUE) : form \in {"two", "list"} }
